@@ -365,6 +365,18 @@ func (l *Listener) Close() error {
 			l.net.ports[l.slot] = nil
 		}
 		l.net.mu.Unlock()
+		// connections still in the backlog are reset, as a kernel does
+		for {
+			select {
+			case c := <-l.ch:
+				raceOn()
+				c.Close()
+				raceOff()
+				continue
+			default:
+			}
+			break
+		}
 	})
 	return nil
 }
